@@ -31,6 +31,8 @@ KINDS = {
     "pithist": (2, ["-m", "pithist"]),
     "igncontrib": (2, ["-m", "igncontrib", "-r", "5"]),
     "against": (3, ["-m", "against"]),
+    # inputs with ensemble members: forecast and quantile lines carry -lw/-lc/-ls, only the member lines are half width
+    "tsens": (2, ["-m", "timeseries", "-q", "0.1,0.9"]),
 }
 
 
@@ -211,12 +213,28 @@ def _series(fig, kind, info):
     return out
 
 
+def _with_quantile_lines(fig, kind, info, s):
+    """(input index, line) for the data lines; for the time series with -q also the first line of each (level, input)"""
+    out = list(enumerate(s))
+    if kind == "tsens":
+        ax = main_axes(fig, kind)[0]
+        for lab in ("10%", "90%"):
+            m = [l for l in ax.get_lines() if l.get_label() == lab]
+            if len(m) != info["F"]:
+                return None
+            out += list(enumerate(m))
+    return out
+
+
 def p_lc(fig, kind, info):
     s = _series(fig, kind, info)
     if s is None:
         return "data lines not found"
     want = ["red", "blue"]
-    for i, l in enumerate(s):
+    s = _with_quantile_lines(fig, kind, info, s)
+    if s is None:
+        return "quantile lines not found"
+    for i, l in s:
         if not color_eq(l.get_color(), want[i % 2]):
             return "line %d colour %r, expected %s" % (i, l.get_color(), want[i % 2])
 
@@ -226,7 +244,10 @@ def p_ls(fig, kind, info):
     if s is None:
         return "data lines not found"
     want = ["--", ":", "-."]
-    for i, l in enumerate(s):
+    s = _with_quantile_lines(fig, kind, info, s)
+    if s is None:
+        return "quantile lines not found"
+    for i, l in s:
         if l.get_linestyle() != want[i % 3]:
             return "line %d style %r, expected %s" % (i, l.get_linestyle(), want[i % 3])
 
@@ -236,7 +257,10 @@ def p_lw(fig, kind, info):
     if s is None:
         return "data lines not found"
     want = [3.0, 1.0]
-    for i, l in enumerate(s):
+    s = _with_quantile_lines(fig, kind, info, s)
+    if s is None:
+        return "quantile lines not found"
+    for i, l in s:
         if abs(l.get_linewidth() - want[i % 2]) > 1e-6:
             return "line %d width %r, expected %s" % (i, l.get_linewidth(), want[i % 2])
 
@@ -492,9 +516,9 @@ OPTIONS = {
     "legfs": (["-legfs", "7"], ["std", "loc", "igncontrib"], p_legfs, "legfs"),
     "legfs0": (["-legfs", "0"], ["std", "loc", "igncontrib"], p_legfs0, "legfs"),
     "legloc": (["-legloc", "lower_left"], ["std", "loc", "igncontrib"], p_legloc, "legfs0x"),
-    "lc": (["-lc", "red,blue"], ["std", "std5", "loc"], p_lc, None),
-    "ls": (["-ls", "--,:,-."], ["std", "std5"], p_ls, None),
-    "lw": (["-lw", "3,1"], ["std", "std5"], p_lw, None),
+    "lc": (["-lc", "red,blue"], ["std", "std5", "loc", "tsens"], p_lc, None),
+    "ls": (["-ls", "--,:,-."], ["std", "std5", "tsens"], p_ls, None),
+    "lw": (["-lw", "3,1"], ["std", "std5", "tsens"], p_lw, None),
     "ma": (["-ma", "x,s,^"], ["std", "std5", "loc"], p_ma, None),
     "ms": (["-ms", "4,9,6,5"], ["std", "std5", "loc"], p_ms, None),
     "labfs": (["-labfs", "11"], ["std", "loc", "pithist", "igncontrib", "against"], p_labfs, None),
@@ -554,13 +578,13 @@ def plan(tier, seed):
 _files = {}
 
 
-def files_for(ctx, seed, F, gap=False):
-    key = (seed, F, gap)
+def files_for(ctx, seed, F, gap=False, ens=False):
+    key = (seed, F, gap, ens)
     if key not in _files:
         rng = random.Random("C17-data-%s-%s" % (seed, F))
-        d = os.path.join(ctx.workdir, "data%d%s" % (F, "gap" if gap else ""))
+        d = os.path.join(ctx.workdir, "data%d%s%s" % (F, "gap" if gap else "", "ens" if ens else ""))
         os.makedirs(d, exist_ok=True)
-        ds = gen.make_dataset(rng, n_inputs=F, fmt="text", prob=True, pit=True, miss=0.05, sparse=0.0, same_dims=True,
+        ds = gen.make_dataset(rng, n_inputs=F, fmt="text", prob=True, pit=True, ens=ens, members=(3 if ens else None), miss=0.05, sparse=0.0, same_dims=True,
                               thresholds=[0.0, 5.0, 10.0], quantiles=[0.1, 0.5, 0.9], max_t=4, max_l=5, max_s=4, vrange=(1, 14),
                               leadtime_pool=[0, 6, 12, 18, 24, 30, 36, 48])
         if gap:
@@ -585,7 +609,7 @@ def png_size(path):
 def run_figure(ctx, kind, names, seed, tag):
     """Produce the figure with the given options; returns (fig, info) or (None, reason)."""
     F, base = KINDS[kind]
-    ds, paths, locs = files_for(ctx, seed, F, gap=(kind == "stdgap"))
+    ds, paths, locs = files_for(ctx, seed, F, gap=(kind == "stdgap"), ens=(kind == "tsens"))
     argv = [gen.fnum(locs[0][0]) if a == "LOC0" else a for a in base]
     legnames = ["Name %d" % i for i in range(F)]
     for n in names:
